@@ -43,11 +43,14 @@ def install_recorder():
             MOVES.append(r)
         return r
     SF.Move.unpack = move_unpack
-    for n in ('_unpack_fixed_and_primitive_size', '_unpack_fixed_size'):
-        wrap(F.Int, n)
-    for n in ('_unpack_fixed_size', '_unpack_variable_size_field', '_unpack_variable_size_callable',
-              '_unpack_with_string_marker', '_unpack_with_regexp_marker'):
-        wrap(F.Data, n)
+    # every leaf decoder the classes have NOW (the private names are bisturi's: a refactoring may rename, merge or add some)
+    for cls in (F.Int, F.Data):
+        for n in sorted(vars(cls)):
+            if n.startswith('_unpack') and callable(vars(cls)[n]):
+                try:
+                    wrap(cls, n)
+                except Exception:
+                    pass
 
 
 def generated_blocks(cls, which):
